@@ -133,6 +133,23 @@ func init() {
 		return e.each(func(i int, g *Rng) error {
 			ctx := context.Background()
 			vendor, product, version, url := g.randStringValid(), g.randStringValid(), g.randStringValid(), g.randStringValid()
+			// empty identity strings are omitted from the GetInfo reply: the client must still report them as empty
+			for _, f := range []*string{&vendor, &product, &version, &url} {
+				if g.Chance(1, 4) {
+					*f = ""
+				}
+			}
+			// the caller's result variables are reused across all GetInfo calls of the case and start out holding
+			// other values; every result is kept (strings by value, the interface list as the slice returned) and
+			// written to the line only at the end, so a later call that writes into an earlier result shows
+			pv, pp, pver, pu := "stale-vendor", "stale-product", "stale-version", "stale-url"
+			pifs := append(make([]string, 0, 32), "stale.a", "stale.b", "stale.c")
+			type infoSnap struct {
+				ok           bool
+				v, p, ver, u string
+				ifs          []string
+			}
+			var snaps []*infoSnap
 			svc, err := varlink.NewService(vendor, product, version, url)
 			if err != nil {
 				return err
@@ -169,15 +186,9 @@ func init() {
 					}
 					qctx, cancel := context.WithTimeout(ctx, 10*time.Second)
 					if g.Bool() {
-						var v, p, ver, u string
-						var ifs []string
-						e := conn.GetInfo(qctx, &v, &p, &ver, &u, &ifs)
-						q := &Line{}
-						q.Bool(e == nil).Str(v).Str(p).Str(ver).Str(u).N(len(ifs))
-						for _, n := range ifs {
-							q.Str(n)
-						}
-						ops = append(ops, opRec{kind: "info", res: q.String()})
+						e := conn.GetInfo(qctx, &pv, &pp, &pver, &pu, &pifs)
+						snaps = append(snaps, &infoSnap{e == nil, pv, pp, pver, pu, pifs})
+						ops = append(ops, opRec{kind: "info", res: fmt.Sprintf("@snap%d", len(snaps)-1)})
 					} else {
 						name := g.Pick(regNamePool)
 						d, e := conn.GetInterfaceDescription(qctx, name)
@@ -276,9 +287,22 @@ func init() {
 			}
 			qctx, cancel := context.WithTimeout(ctx, 10*time.Second)
 			defer cancel()
-			var gv, gp, gver, gu string
-			var gi []string
-			infoErr := conn.GetInfo(qctx, &gv, &gp, &gver, &gu, &gi)
+			infoErr := conn.GetInfo(qctx, &pv, &pp, &pver, &pu, &pifs)
+			gv, gp, gver, gu, gi := pv, pp, pver, pu, pifs
+			// the results of the queries in the middle of the history, as they read NOW
+			for k := range ops {
+				if ops[k].kind == "info" {
+					var idx int
+					fmt.Sscanf(ops[k].res, "@snap%d", &idx)
+					sn := snaps[idx]
+					q := &Line{}
+					q.Bool(sn.ok).Str(sn.v).Str(sn.p).Str(sn.ver).Str(sn.u).N(len(sn.ifs))
+					for _, n := range sn.ifs {
+						q.Str(n)
+					}
+					ops[k].res = q.String()
+				}
+			}
 			// names to ask for: everything in the pool, everything that was tried, a few others
 			asked := append([]string{}, regNamePool...)
 			for _, o := range ops {
@@ -310,6 +334,29 @@ func init() {
 					l.S("err").Str(fmt.Sprintf("%T", err))
 				}
 			}
+			// routing (C04): a call of a method of every name that was asked for reaches the interface registered
+			// under exactly that name, or is answered InterfaceNotFound — in particular for a name whose
+			// registration was refused
+			l.N(len(asked))
+			for _, n := range asked {
+				var out json.RawMessage
+				err := conn.Call(qctx, n+".Zz", nil, &out)
+				l.Str(n)
+				switch er := err.(type) {
+				case nil:
+					l.S("ok").Str("")
+				case *varlink.InterfaceNotFound:
+					l.S("notfound").Str(er.Interface)
+				case *varlink.MethodNotFound:
+					l.S("methodnotfound").Str(er.Method)
+				case *varlink.MethodNotImplemented:
+					l.S("notimpl").Str(er.Method)
+				case *varlink.InvalidParameter:
+					l.S("invalid").Str(er.Parameter)
+				default:
+					l.S("other").Str(fmt.Sprintf("%T", err))
+				}
+			}
 			conn.Close()
 			// Resolver helper
 			if resolverOK {
@@ -317,8 +364,8 @@ func init() {
 				if err != nil {
 					return err
 				}
-				var rv, rp, rver, ru string
-				var ri []string
+				rv, rp, rver, ru := "stale-vendor", "stale-product", "stale-version", "stale-url"
+				ri := append(make([]string, 0, 32), "stale.a", "stale.b")
 				rerr := rs.GetInfo(qctx, &rv, &rp, &rver, &ru, &ri)
 				addr, aerr := rs.Resolve(qctx, "some.iface")
 				rs.Close()
